@@ -22,7 +22,9 @@ def run(ctx):
     ctx.rule = ("(description, opening/challenge set): real descriptions of both circuits with the proof's own data and seeded random data; synthetic descriptions "
                 "nc in 1..3 x routed wires x degree factor (seeded, including non-divisible pairs); each accepted set x seeded single perturbations; distinct = distinct data sets / perturbations")
     ctx.assumptions += ["gate constraint values of the real descriptions are taken from the repository's own gate code (C15 decides them)",
-                        "synthetic descriptions use the Noop gate only (no gate constraints)"]
+                        "synthetic descriptions use the Noop gate only (no gate constraints)",
+                        "at zeta = 1 the code (like plonky2's recursive verifier) cannot form L0 and accepts nothing, although the identity can hold there "
+                        "(Z(1) = 1): that single point is modelled as 'rejects' and its accept case is not replayed"]
     thorough = ctx.tier == "thorough"
     files = oracles.emit(ctx, bn=False)
     rnd = random.Random(ctx.seed * 97 + 16)
@@ -34,6 +36,8 @@ def run(ctx):
     syn = [(1, 2, 1), (1, 2, 2), (2, 4, 2), (3, 6, 3), (2, 80, 8), (1, 12, 4), (1, 8, 8)]
     # pairs where the degree factor does not divide the routed-wire count (plonky2 allows a shorter last chunk)
     syn += [(1, 5, 2), (2, 7, 3), (1, 80, 7)]
+    # several rounds with very few partial products (0, 1, 2 per round)
+    syn += [(2, 2, 2), (3, 4, 2), (3, 6, 2), (3, 3, 4)]
     for _ in range(20 if thorough else 5):
         syn.append((rnd.randint(1, 3), rnd.randint(2, 80), rnd.randint(1, 8)))
     for nc, rw, qd in syn:
@@ -50,6 +54,9 @@ def run(ctx):
             jobs.append({"terms": terms, "part": "real", "instance": s["_inst"], "index": i, "nrandom": 6 if thorough else 2, "nperturb": 6 if thorough else 3, "shard": i})
         else:
             jobs.append({"terms": terms, "part": "synthetic", "index": i, "nrandom": 4 if thorough else 2, "nperturb": 4 if thorough else 2, "shard": i})
+            # zeta on the subgroup H (Z_H(zeta) = 0): zeta = 1 with Z(1) != 1 must not be accepted; zeta = w^j with a vanishing combination
+            # is accepted and rejected after one change in the permutation argument
+            jobs.append({"terms": terms, "part": "degenerate", "index": i, "nrandom": 3 if thorough else 1, "nperturb": 3 if thorough else 2, "shard": 100 + i})
 
     def one(j):
         return ctx.run_driver("c16", j, tag="c16-%d" % j["shard"], timeout=3000, env=env)
